@@ -821,7 +821,7 @@ def run(rep, tier, seed):
             # level under EVERY environment, larger ones under one drawn at random
             has_var = 'v0' in key
             if has_var:
-                for k in (collide if size <= 2 else [R.choice(collide)] if R.random() < 0.5 else []):
+                for k in (collide if size <= 2 else [R.choice(collide)] if R.random() < 0.35 else []):
                     progs.append(Prog(b, R, len(progs), f'exhaustive<={size}', k))
         ex_count[f'size<={size},names={pool},{"rich" if rich else "reduced"}-menu'] = len(seen_abs)
         ex_count[f'size<={size}: renderings incl. environments'] = len(progs) - n0
@@ -837,7 +837,7 @@ def run(rep, tier, seed):
         lvl3 = [b for b in enum_programs(3, 2, True) if repr(b) not in seen_abs]
         for b in R.sample(lvl3, min(800, len(lvl3))):
             progs.append(Prog(b, R, len(progs), 'sample-of-size-3', R.choice(SCHEMES)))
-    nrand = 2000 if quick else 30000
+    nrand = 2000 if quick else 20000
     for _ in range(nrand):
         progs.append(Prog(rand_program(R), R, len(progs), 'random', 'plain' if R.random() < 0.4 else R.choice(collide)))
     rep.count('origin:corpus', len(CORPUS) * len(SCHEMES))
